@@ -25,8 +25,9 @@ EXPLANATION = (
     "missing entry before returning; (5) compiled pdfs - the C bivariate lognormal equals the Python reference (q, norm and "
     "parameter layouts), the C independent-gamma density uses (alpha_k, beta_k) consistently in power, exponential and "
     "normaliser of each marginal, and the Lanczos table/recurrence are the published g=7, n=9 ones. Quadrature accuracy, "
-    "scipy and real multiprocessing schedules are not decided.")
-TECHNIQUE = "theta-degree typestate + rational identities (weights) + tail-term pairing templates + worker/collector error discipline + C/Python pdf normal forms"
+    "scipy and real multiprocessing schedules are not decided."
+    ' R-LOOKUP: self.gammas is extended in user / call order (concatenate, append), so the cached spectrum of a point mass is selected by equality with the requested gamma, never by an order-based search (searchsorted / bisect / digitize).')
+TECHNIQUE = "theta-degree typestate + sortedness typestate of the cached gamma array (equality lookup) + rational identities (weights) + tail-term pairing templates + worker/collector error discipline + C/Python pdf normal forms"
 DECLINED = ["quadrature accuracy and scipy.integrate internals", "real multiprocessing schedules", "numerical pdf values"]
 
 C1 = 'dadi.DFE.Cache1D_mod'
